@@ -201,7 +201,9 @@ __CPROVER_requires(cells_symb_wf(self) && 0 <= inIdxCell && inIdxCell < CG_N(sel
 __CPROVER_ensures(__CPROVER_return_value == &CG_CELLS(self)[inIdxCell])
 __CPROVER_assigns();
 
-const struct std_array_long_3 *TbfCellsContainer__getCellBoxCoord(const CellGroup *self, const long inIdxCell)
+#define GROUPS_CAT_(a, b) a##b
+#define GROUPS_CAT(a, b) GROUPS_CAT_(a, b)
+const struct GROUPS_CAT(std_array_long_, DIM) *TbfCellsContainer__getCellBoxCoord(const CellGroup *self, const long inIdxCell)
 __CPROVER_requires(cells_symb_wf(self) && 0 <= inIdxCell && inIdxCell < CG_N(self))
 __CPROVER_ensures(__CPROVER_return_value == &CG_CELLS(self)[inIdxCell].boxCoord)
 __CPROVER_assigns();
